@@ -122,9 +122,9 @@ def convIntFloatUnguarded (ops : FloatOps) (S : IntTy) (F : FloatFmt) (x : Int) 
     if back = x ∧ ¬ ((pos ∧ x < 0) ∨ (neg ∧ x > 0)) then .ok value else .err .outOfRange
 
 /-- floating source, floating target of another format:
-    `sizeof(T) > sizeof(S) || (src >= lowest<T> && src <= max<T>)` -/
+    `sizeof(T) > sizeof(S) || !std::isfinite(src) || (src >= lowest<T> && src <= max<T>)` -/
 def convFloatFloat (ops : FloatOps) (S T : FloatFmt) (b : Nat) : Outcome Nat :=
-  if T.width > S.width ∨ (ops.le T T.lowestBits S b ∧ ops.le S b T T.maxBits) then .ok (ops.cvt S T b)
+  if T.width > S.width ∨ isFinite S b = false ∨ (ops.le T T.lowestBits S b ∧ ops.le S b T T.maxBits) then .ok (ops.cvt S T b)
   else .err .outOfRange
 
 /-- `Detail::To` for every pair of arithmetic types. `none`-like ill-typed calls cannot be written in
